@@ -43,3 +43,37 @@ From KV Require Import StateGen StateBase StateExportProofs StateDocumentProofs.
 Theorem C08_state_as_modelled : state_export = modelled_state_export /\ state_document = modelled_state_document.
 Proof. exact (conj state_export_as_modelled state_document_as_modelled). Qed.
 Print Assumptions C08_state_as_modelled.
+
+(* "governed by the same clef, key signature and time signature as in the full score".
+   (1) For EVERY text that imports, every node's signature dictionary reads, under each class name, exactly the nearest
+       signature cell of that class on the way up its spine path (through splits and joins) to the header: there is an
+       entry sid for class cls IFF sid is a cell above-or-at the node holding a signature token of class cls, with no
+       other signature of that class, header or '!!' line in between. *)
+From KV Require Import TreeProofs SigForceProofs.
+Theorem C08_signatures_in_force_partial : forall bad text d, loads bad text = IOk d ->
+  forall i, i < List.length (d_nodes d) -> forall cls sid,
+  assoc_str cls (n_sigs (get_node d i)) = Some sid <->
+  (0 < sid /\ clear_path d cls sid i /\ exists t, n_tok (get_node d sid) = Some t /\ is_sig_of cls t = true).
+Proof. exact loads_sig_in_force. Qed.
+Print Assumptions C08_signatures_in_force_partial.
+
+(* (2) The signature block an excerpt starts with is made, column by column, of exactly these dictionaries: one column
+       per node of the excerpt's first line that has any, holding the export of every entry in dictionary order, minus
+       the entries replaced by a new signature of the same class before the first note; all columns have the same
+       height (otherwise the export raises - the ragged-signature finding K10) and the block is written row by row. *)
+Theorem C08_excerpt_signature_block_partial : forall d o fs ts rows, signature_rows d o fs ts = Ok rows ->
+  exists cols,
+    Forall2 (fun id col =>
+      exists l, sig_column d o fs ts id = Ok col /\ col = l /\
+        Forall2 (fun c kv => export_node d o (snd kv) = Ok c) l
+          (filter (fun kv => negb (sig_cancelled (S (ts - fs)) d (node_class d (snd kv)) id fs ts)) (n_sigs (get_node d id))))
+      (nth fs (d_stages d) []) cols /\
+    let kept := filter nonempty cols in
+    (forall c, In c kept -> List.length c = List.length (hd [] kept)) /\
+    rows = map (fun irow => map (fun col => nth irow col ""%string) kept) (seq 0 (List.length (hd [] kept))).
+Proof.
+  intros d o fs ts rows H. destruct (signature_rows_spec d o fs ts rows H) as [cols [F R]]. exists cols. split; [|exact R].
+  clear R H. induction F as [|id col ids cols Hc F IH]; constructor; [|exact IH].
+  exists col. split; [exact Hc|]. split; [reflexivity|]. exact (sig_column_spec d o fs ts id _ _ Hc).
+Qed.
+Print Assumptions C08_excerpt_signature_block_partial.
